@@ -36,6 +36,7 @@ inductive RuleId where
   | closure
   | table (k : RuleKey)
   | frame (r : FrameRule)
+  | ident                     -- cpl.IdentityIndiscernability (classical family)
   deriving DecidableEq, Repr, Inhabited
 
 /-- the rule-table key a node belongs to (filters.NodeSentence: operator + negated; filters.NodeDesignation) -/
@@ -45,6 +46,19 @@ def nodeKey : Node → Option RuleKey
       | some (sh, ng, _) => some ⟨sh, ng, d⟩
       | none => none
   | _ => none
+
+/-- filter of `IdentityIndiscernability` (`predicate = Identity`, not negated): an identity predication node -/
+def isIdentityNode : Node → Bool
+  | .sent (.pred q [_, _]) _ _ => q == Pred.identity
+  | _ => false
+
+/-- `PredNodes.__call__`: the node's sentence is a (positive) predication -/
+def isPredNode : Node → Bool
+  | .sent (.pred _ _) _ _ => true
+  | _ => false
+
+/-- `PredNodes[branch]`: the predication nodes of the branch (they are never ticked: a function of the branch) -/
+def predIdx (b : Branch) : List Nat := (b.nodes.zipIdx.filter fun p => isPredNode p.1).map (·.2)
 
 def isAccess : Node → Bool
   | .access _ _ => true
@@ -60,10 +74,12 @@ def matchesRule : RuleId → Node → Bool
   | .frame .transitive, nd => isAccess nd
   | .frame .symmetric, nd => isAccess nd
   | .frame .serial, _ => false
+  | .ident, nd => isIdentityNode nd
 
 /-- `ignore_ticked` (BaseNodeRule: True; BaseAccessRule: False) -/
 def ignoreTicked : RuleId → Bool
   | .table _ => true
+  | .ident => true
   | _ => false
 
 /-- what a closure rule's `BranchTarget` helper caches -/
@@ -105,7 +121,8 @@ def BranchH.ncRegistered (h : BranchH) (k : RuleKey) (i : Nat) : Bool := h.ncs.a
 /-- the rules whose filter a node passes -/
 def matching (nd : Node) : List RuleId :=
   (match nodeKey nd with | some k => [RuleId.table k] | none => []) ++ [.frame .reflexive] ++
-    (if isAccess nd then [.frame .transitive, .frame .symmetric] else [])
+    (if isAccess nd then [.frame .transitive, .frame .symmetric] else []) ++
+    (if isIdentityNode nd then [.ident] else [])
 
 /-- worlds w1 sees according to a world index -/
 def succs (wi : List (Nat × Nat)) (w : Nat) : List Nat :=
